@@ -169,3 +169,27 @@ Theorem c10_ticket_nothing_after_clear : forall (mac : str -> str) seal unseal c
   dom_ok name D P j' /\ manager_load mac str unseal m' cfg (jar_cookies j') now' = (None, None).
 Proof. exact ticket_nothing_after_clear. Qed.
 Print Assumptions c10_ticket_nothing_after_clear.
+
+(* whole histories on the server-side store: after ANY sequence of saves and clears (any values, any
+   times, any store contents to begin with) from a jar satisfying the family invariant - the empty jar
+   of a new browser does - a further save makes the next request load exactly the saved session and a
+   further clear leaves nothing to load *)
+Theorem c10_ticket_history : forall (mac : str -> str), (forall m, is_bytes (mac m)) ->
+  forall seal unseal, (forall sec v, unseal sec (seal sec v) = Some v) ->
+  forall cfg host, 0 <= c_expire_ns cfg ->
+  forall j m ops now o now',
+  dom_ok (c_name cfg) (select_domain host (c_domains cfg)) (c_path cfg) j ->
+  let st := ticket_run mac seal cfg host (j, m) ops in
+  let st' := ticket_step mac seal cfg host now st o in
+  match o with
+  | TSave v created fresh =>
+    is_bytes (fst fresh) -> is_bytes (snd fresh) -> ts_ok created = true ->
+    in_window created now' (c_expire_ns cfg) = true ->
+    snd (manager_load mac str unseal (snd st') cfg (jar_cookies (fst st')) now') = Some v
+  | TClear => manager_load mac str unseal (snd st') cfg (jar_cookies (fst st')) now' = (None, None)
+  end.
+Proof. exact ticket_history. Qed.
+Print Assumptions c10_ticket_history.
+
+Example c10_ticket_history_starts_somewhere : forall name D P, dom_ok name D P [].
+Proof. intros name D P e Hin. destruct Hin. Qed.
